@@ -474,7 +474,7 @@ def write_evidence(prop, tier, seed, t0, jobs, units, tags, undecided=(), violat
             "obligations": obligations, "discharged": discharged,
             "checker_cmd": cmd or "goto-cc | goto-instrument --dfcc | cbmc (no job ran)",
             "trusted_base": trusted + ["CBMC 6.11.0, goto-instrument DFCC, SAT back ends (cadical, kissat, minisat)"],
-            "explanation": "CBMC code contracts enforced per function with goto-instrument --dfcc on C text extracted mechanically from /repo on this run; loops closed by loop contracts - except jobs marked "unwind": their loops run over a declared bound (array size of the declaration model, NITRO_K/NITRO_G/NITRO_NARGS) and are unwound completely with --unwinding-assertions; callees replaced by their contracts; lemma harnesses connect function contracts to the property statement.",
+            "explanation": "CBMC code contracts enforced per function with goto-instrument --dfcc on C text extracted mechanically from /repo on this run; loops closed by loop contracts - except jobs marked 'unwind': their loops run over a declared bound (array size of the declaration model, NITRO_K/NITRO_G/NITRO_NARGS) and are unwound completely with --unwinding-assertions; callees replaced by their contracts; lemma harnesses connect function contracts to the property statement.",
             "functions_under_contract": [j.name for j in main_jobs if j.kind == "function"],
             "lemma_harnesses": [j.name for j in main_jobs if j.kind == "lemma"],
             "jobs": per_fn,
